@@ -1719,11 +1719,10 @@ class Cat(Funsor, metaclass=CatMeta):
             pos = 0
             for part in self.parts:
                 psize = part.inputs[self.part_name].size
-                if step > 1:
-                    pstart = ((pos - start) // step) * step - (pos - start)
-                    pstart = pstart + step if pstart < 0 else pstart
+                if pos >= start:
+                    pstart = (start - pos) % step
                 else:
-                    pstart = max(start - pos, 0)
+                    pstart = start - pos
                 pstop = min(pos + psize, stop) - pos
 
                 if not (pstart >= pstop or pos >= stop or pos + psize <= start):
@@ -1733,7 +1732,7 @@ class Cat(Funsor, metaclass=CatMeta):
 
                 pos += psize
 
-            return Cat(self.name, tuple(new_parts), self.part_name)
+            return Cat(value.name, tuple(new_parts), self.part_name)
         else:
             raise NotImplementedError(
                 "TODO implement Cat.eager_subs for {}".format(type(value))
